@@ -5,7 +5,7 @@ import json
 from . import core
 from .core import cq_Z, cq_bool, cq_list
 
-THEOREMS = ["C23_scalar", "C23_checked", "C23_in_range_partial", "C23_2d_checked", "C23_slice_refuted", "C23_slice_wrap_refuted", "C23_loop_refuted",
+THEOREMS = ["C23_scalar", "C23_checked", "C23_checked_exact", "C23_repo_now_two_part", "C23_in_range_partial", "C23_2d_checked", "C23_slice_refuted", "C23_slice_wrap_refuted", "C23_loop_refuted",
             "C23_three_part_refuted", "C23_example"]
 
 PREAMBLE = "From Coq Require Import ZArith List.\nImport ListNotations.\nFrom PV Require Import Model.C23_index.\nOpen Scope Z_scope.\n"
@@ -296,14 +296,18 @@ PROBES = [
     ("chk_loop", {"n": 3, "u": ["loop", 1, 3, -1]}),
     ("mod3", {"n": 3, "u": ["sl3", 1, 3, 2]}),
     ("mod3", {"n": 5, "u": ["loop3", 1, 3, 2, 0]}),
+    ("empty_ok", {"n": 3, "u": ["loop", 3, 1, 1]}),
+    ("empty_ok", {"n": 2, "u": ["loop", 2, 1, -1]}),
 ]
 
 
 def derive_cfg(ctx):
     res = core.run_child(ctx, "c23", [child_case(c) for _, c in PROBES])
-    votes = {"chk_slice": [], "chk_loop": [], "mod3": []}
+    votes = {"chk_slice": [], "chk_loop": [], "mod3": [], "empty_ok": []}
     for (flag, c), r in zip(PROBES, res):
-        if flag == "mod3":
+        if flag == "empty_ok":
+            votes[flag].append(r.get("sel") == [])
+        elif flag == "mod3":
             votes[flag].append(r.get("sel") is not None and [x[0] for x in r["sel"]] == [1])
         else:
             votes[flag].append(r.get("exc") == "ValueError")
@@ -314,7 +318,7 @@ def derive_cfg(ctx):
 
 
 def cfg_term(cfg):
-    return "(Cfg %s %s %s)" % (cq_bool(cfg["chk_slice"]), cq_bool(cfg["chk_loop"]), cq_bool(cfg["mod3"]))
+    return "(Cfg %s %s %s %s)" % (cq_bool(cfg["chk_slice"]), cq_bool(cfg["chk_loop"]), cq_bool(cfg["mod3"]), cq_bool(cfg["empty_ok"]))
 
 
 def enc_sub(u):
@@ -368,7 +372,7 @@ def run(ctx):
     cfg, votes, probe_res = derive_cfg(ctx)
     ctx.notes["model_configuration"] = {"cfg": cfg, "probe_votes": votes,
                                         "meaning": "which repairs the tree under test contains, read off its behaviour; "
-                                                   "C23_checked applies when chk_slice, chk_loop (and mod3 for three-part ranges) are true"}
+                                                   "C23_checked_exact applies when chk_slice, chk_loop, empty_ok (and mod3 for three-part ranges) are true"}
     ctx.oblige("configuration:probes-agree", all(len(set(v)) == 1 for v in votes.values()),
                "probe votes %s" % votes)
     cases = []
@@ -429,8 +433,8 @@ def run(ctx):
         "CasADi's slice / index-vector semantics (ca_slice, ca_wrap) and NumPy's arange are modelled from their observed "
         "behaviour (validated on a window n<=4, bounds in [-7,7], steps -2..3) and exercised through generate() on every run",
         "subscripts are integer constants after get_integer(); subscripts depending on variables are out of scope",
-        "the model's configuration flags (chk_slice, chk_loop, mod3) are read off the behaviour of the tree under test on six "
-        "probe inputs; the positive theorem C23_checked applies to a tree where all are true",
+        "the model's configuration flags (chk_slice, chk_loop, mod3, empty_ok) are read off the behaviour of the tree under test on "
+        "eight probe inputs; C23_checked_exact / C23_repo_now_two_part apply to (true, true, _, true), three-part ranges need mod3",
     ]
 
 
